@@ -16,7 +16,7 @@ import MdkVerif.Model.Store
     the locks; `enabled c t` says that the lock `t`'s next step acquires is compatible with the locks
     the threads hold, `respects c sched` that every step of a schedule is enabled.  Theorems about
     un-nested sections hold for EVERY schedule; the nested-section theorem is about the schedules
-    that respect the locks (the ones the lock implementation admits), the deadlock theorem says that
+    that respect the locks (the ones the lock implementation allows), the deadlock theorem says that
     such a schedule can always be extended.
   * `lockProg` gives, for every operation of the sequential store model, the section structure of
     the real method on each backend (memory: `inner` / `group_snapshots` RwLocks; sqlite: the
@@ -173,7 +173,7 @@ def step (c : Cfg ι σ ρ) (t : Nat) : Cfg ι σ ρ :=
 
 def exec (c : Cfg ι σ ρ) (sched : List Nat) : Cfg ι σ ρ := sched.foldl step c
 
-/-! ## which steps the locks admit -/
+/-! ## which steps the locks allow -/
 
 /-- two acquisitions of the same lock exclude each other unless both are shared -/
 def conflict (a b : Lock) : Bool := a.1 == b.1 && (a.2 != 0 || b.2 != 0)
@@ -190,7 +190,7 @@ def Cfg.holds (c : Cfg ι σ ρ) (u : Nat) : List Lock :=
 def enabled (c : Cfg ι σ ρ) (t : Nat) : Prop :=
   ∀ it rest, c.thr t = it :: rest → ∀ lk, it.rem.acquires = some lk → ∀ u l, l ∈ c.holds u → conflict lk l = false
 
-/-- every step of the schedule is one the locks admit -/
+/-- every step of the schedule is one the locks allow -/
 def respects (c : Cfg ι σ ρ) : List Nat → Prop
   | [] => True
   | t :: r => enabled c t ∧ respects (step c t) r
